@@ -164,7 +164,25 @@ pub struct CommandLine {
 
 impl Command {
     pub fn from_tokens(tokens: Tokens) -> Result<Command, String> {
-        let mut tokens_new = tokens.clone();
+        // `<file` and `<<<word` may be written without a blank
+        let mut tokens_new = Vec::new();
+        for token in tokens.iter() {
+            let op = if !token.0.is_empty() {
+                ""
+            } else if token.1.starts_with("<<<") {
+                "<<<"
+            } else if token.1.starts_with('<') && !token.1.starts_with("<<") {
+                "<"
+            } else {
+                ""
+            };
+            if !op.is_empty() && token.1.len() > op.len() {
+                tokens_new.push((String::new(), op.to_string()));
+                tokens_new.push((String::new(), token.1[op.len()..].to_string()));
+            } else {
+                tokens_new.push(token.clone());
+            }
+        }
         let mut redirects_from_type = String::new();
         let mut redirects_from_value = String::new();
         // only unquoted `<` / `<<<` are operators
